@@ -9,7 +9,8 @@ stub table, decimal and hex numeric references) and treats '<' as markup.
 from pycaption.sami import SAMIParser
 from harness.ref_text import text_of
 
-NAMED = (("amp", "&"), ("lt", "<"), ("gt", ">"), ("quot", '"'), ("apos", "'"), ("nbsp", "\u00a0"), ("copy", "\u00a9"), ("eacute", "\u00e9"))
+NAMED = (("amp", "&"), ("lt", "<"), ("gt", ">"), ("quot", '"'), ("apos", "'"), ("nbsp", "\u00a0"), ("copy", "\u00a9"), ("eacute", "\u00e9"),
+         ("Eacute", "\u00c9"), ("Omega", "\u03a9"), ("Prime", "\u2033"))   # names that differ from another name only by case
 
 
 def _data_dom(cps, lo, hi):
@@ -76,12 +77,18 @@ def _pick_name(i):
         return NAMED[5]
     if i == 6:
         return NAMED[6]
-    return NAMED[7]
+    if i == 7:
+        return NAMED[7]
+    if i == 8:
+        return NAMED[8]
+    if i == 9:
+        return NAMED[9]
+    return NAMED[10]
 
 
 def sami_entityref(i: int, cps: list[int]) -> str:
     """
-    pre: 0 <= i < 8 and _data_dom(cps, 0, 3)
+    pre: 0 <= i < 11 and _data_dom(cps, 0, 3)
     post: _ == ""
     """
     name, ch = _pick_name(i)
